@@ -2,7 +2,7 @@
 """Development-time validation of the rules (DESIGN.md §2.6 / §8.1); NOT a registered check.
 
 Each mutant in selftest/mutants/*.json is {"prop","name","file","old","new","expect"(rule id or list),
-"note"} or has "edits":[{"old","new"},...]: `old` must occur exactly once in /repo/<file>; the mutated
+"note"}, or has "edits":[{"old","new"},...], or "patch": "<unified diff, path relative to /verif>": `old` must occur exactly once in /repo/<file>; the mutated
 file is handed to the checker through a go/packages overlay (nothing in /repo is touched); the checker
 must exit 1 and name the expected rule.  `expect: "none"` marks a behaviour-preserving edit on which
 the checker must stay silent (exit 0).
@@ -12,16 +12,35 @@ from concurrent.futures import ThreadPoolExecutor
 V = '/verif'
 
 def run_one(m):
-    src = open('/repo/' + m['file']).read()
-    edits = m.get('edits') or [{'old': m['old'], 'new': m['new']}]
-    for e in edits:
-        if src.count(e['old']) != 1:
-            return False, f"SKIP? {m['prop']} {m['name']}: 'old' occurs {src.count(e['old'])}x", ''
-        src = src.replace(e['old'], e['new'])
     d = tempfile.mkdtemp(prefix='siotmut')
     try:
-        mp = os.path.join(d, 'mut.go'); open(mp, 'w').write(src)
-        ov = os.path.join(d, 'ov.json'); json.dump({'/repo/' + m['file']: mp}, open(ov, 'w'))
+        if 'patch' in m:
+            # a unified diff (possibly over several files), e.g. a filed benign refactoring
+            # or seeded change: applied to copies of the touched files, handed over as overlay
+            pf = m['patch'] if m['patch'].startswith('/') else V + '/' + m['patch']
+            files = [l[6:].strip() for l in open(pf) if l.startswith('+++ b/')]
+            olds = [l[6:].strip() for l in open(pf) if l.startswith('--- a/')]
+            for f in set(files + olds):
+                if os.path.exists('/repo/' + f):
+                    os.makedirs(os.path.dirname(d + '/t/' + f), exist_ok=True)
+                    shutil.copy('/repo/' + f, d + '/t/' + f)
+            os.makedirs(d + '/t', exist_ok=True)
+            r = subprocess.run(['patch', '-p1', '-s', '-d', d + '/t', '-i', pf], capture_output=True, text=True)
+            if r.returncode != 0:
+                return False, f"SKIP? {m['prop']} {m['name']}: patch does not apply: {r.stdout[:200]}", ''
+            ovm = {}
+            for f in set(files):
+                ovm['/repo/' + f] = d + '/t/' + f
+        else:
+            src = open('/repo/' + m['file']).read()
+            edits = m.get('edits') or [{'old': m['old'], 'new': m['new']}]
+            for e in edits:
+                if src.count(e['old']) != 1:
+                    return False, f"SKIP? {m['prop']} {m['name']}: 'old' occurs {src.count(e['old'])}x", ''
+                src = src.replace(e['old'], e['new'])
+            mp = os.path.join(d, 'mut.go'); open(mp, 'w').write(src)
+            ovm = {'/repo/' + m['file']: mp}
+        ov = os.path.join(d, 'ov.json'); json.dump(ovm, open(ov, 'w'))
         os.makedirs(d + '/evidence')
         if os.path.exists(V + '/known-findings.json'):
             shutil.copy(V + '/known-findings.json', d)
